@@ -19,6 +19,8 @@ func schedScenarios(prop, tier string) []*Scenario {
 		return c02Scenarios(tier)
 	case "C09":
 		return c09Scenarios(tier)
+	case "C06":
+		return c06Scenarios(tier)
 	}
 	return nil
 }
@@ -40,8 +42,12 @@ func listItems(prop, tier string) []Item {
 	for _, s := range schedScenarios(prop, tier) {
 		items = append(items, Item{Kind: "sched", Name: s.Name, Bound: schedBound(prop, tier), Shards: 1, BudgetS: budget})
 	}
-	for _, n := range seqJobs(prop, tier) {
-		items = append(items, Item{Kind: "seq", Name: n, Shards: 1, BudgetS: budget})
+	for _, j := range seqJobList(prop, tier) {
+		n := j.Shards
+		if n < 1 {
+			n = 1
+		}
+		items = append(items, Item{Kind: "seq", Name: j.Name, Shards: n, BudgetS: budget})
 	}
 	return items
 }
@@ -50,6 +56,12 @@ func seqJobList(prop, tier string) []*SeqJob {
 	switch prop {
 	case "C03":
 		return c03Jobs(tier)
+	case "C06":
+		return c06Jobs(tier)
+	case "C04":
+		return c04Jobs(tier)
+	case "C05":
+		return c05Jobs(tier)
 	}
 	return nil
 }
